@@ -129,7 +129,7 @@ def build_world(spec: dict) -> World:
                     # an entry is [type, quantity] (any instance) or [type, quantity, k] (the k-th resource instance of
                     # the cluster, counted over pools / workers / entries as `w.rid` does)
                     resources=Resources(resource_vector={Resource(name=e[0], _id=("any" if len(e) < 3 else f"id{e[2]}")): e[1] for e in s["req"]}),
-                    batch_size=1,
+                    batch_size=s.get("bs", 1),
                     # the same duration given in another unit (mixed units inside one profile)
                     runtime=EventTime(int(s["runtime"]) // 1000, EventTime.Unit.MS) if s.get("rt_ms") else US(s["runtime"]),
                 )
@@ -850,6 +850,16 @@ def gen_world(rng, kind: str, policy: str | None = None, widened: bool = False) 
         world["round2"] = True
         if r2.random() < 0.5:
             world["round2_grow"] = {"pick": r2.randrange(8), "extra": r2.randint(1, 6)}
+    if r2.random() < 0.25:
+        # strategies of different batch sizes inside one profile (larger batches are often the FASTER ones): which
+        # strategy is the fastest / slowest is a matter of runtime only
+        for g in graphs:
+            for t in g["tasks"]:
+                if len(t["strats"]) > 1:
+                    order_ = sorted(range(len(t["strats"])), key=lambda i_: t["strats"][i_]["runtime"])
+                    sizes = sorted(r2.sample([1, 2, 3, 4, 6, 8], len(order_)), reverse=True)
+                    for i_, b_ in zip(order_, sizes):
+                        t["strats"][i_]["bs"] = b_
     if r2.random() < 0.25:
         # one or two work profiles are being loaded on workers when the policy runs (they hold resources)
         world["loading"] = []
